@@ -8,7 +8,7 @@ def p_parts():
     from ._parts import p_parts as p_partnames
     from ._edits import p_edits
     from ._generic import optional_parts
-    return [p_partnames, p_edits] + optional_parts(("_partfiles", "p_partfiles"))
+    return [p_partnames, p_edits] + optional_parts(("_partfiles", "p_partfiles"), ("_pathconv", "p_part_id"), ("_units", "p_units"))
 
 
 def run(ctx):
